@@ -298,6 +298,11 @@ class C11(SessimProp):
                 out["violations"].append({"class": "simulator-process-died", "key": "C11:simulator-process-died",
                                           "detail": json.dumps(res)[:300], "replay": {"case": case, "faulty": faulty}})
                 break
+            if got == "dead" and any(rd["budget_exceeded"] for s in res["steps"] for rd in s["rounds"]):
+                # the harness's own step budget stopped an input (as an interrupt would): what follows is
+                # a session stopped in a frame, not the history that was generated
+                bump(f"cfg:{cfg}:step_budget_exceeded(skipped)")
+                continue
             if got == "dead":
                 pans = [rd.get("panic") for s in res["steps"] for rd in s["rounds"] if rd.get("panic")]
                 out["violations"].append({"class": "panic", "key": f"C11:{cfg}:panic",
